@@ -376,3 +376,14 @@ package ipmi
 //@ ensures [C07.v2-oem] result == nil && data[1]%64 == 2 ==> uint32(s.Enterprise) == le32(data, 2) && s.PayloadID == le16(data, 6) && s.ID == le32(data, 8) && s.Sequence == le32(data, 12) &&
 //@    s.Length == le16(data, 16) && aliases(s.Contents, data, 0, 18) && aliases(s.Payload, data, 18, 18+int(s.Length))
 //@ ensures [C04.v2-unauth] result == nil && !bit(data[1], 6) ==> s.Pad == 0 && len(s.Signature) == 0
+
+// SpecAESKeyByte: byte k of the key the layer's cipher was created with (ghost of aes.NewCipher).
+func SpecAESKeyByte(a *AES128CBC, k int) byte { return aesKeyByte(a.cipher, k) }
+
+// SpecAESReady: the object invariant of the layer (a cipher is installed).
+func SpecAESReady(a *AES128CBC) bool { return a.cipher != nil }
+
+//@ func NewAES128CBC
+//@ props C01 C03
+//@ assigns nothing
+//@ ensures [C01.aes-new] result1 == nil && !isnil(result0) && !isnil(result0.cipher) && forall(qk, 0, 16, aesKeyByte(result0.cipher, qk) == k2[qk])
